@@ -48,7 +48,7 @@ def run_mutant(name, tier="quick", props=None):
             # evidence of mutant runs must not overwrite the real evidence: run with a private evidence dir
             env["VERIF_EVIDENCE_DIR"] = os.path.join(wt, ".evidence")
             env["VERIF_OUT_DIR"] = os.path.join(wt, ".out")
-            r = subprocess.run([os.path.join(HERE, "check.py"), pid, "--tier", tier], env=env, capture_output=True, text=True, cwd=HERE)
+            r = subprocess.run(["timeout", "-k", "10", "900", os.path.join(HERE, "check.py"), pid, "--tier", tier], env=env, capture_output=True, text=True, cwd=HERE)
             vio = [l for l in r.stdout.splitlines() if l.startswith("VIOLATION")]
             first = [l for l in r.stdout.splitlines() if l.strip().startswith("violation:")][:2]
             out["results"][pid] = {"rc": r.returncode, "killed": r.returncode == 1 and bool(vio), "wall_s": round(time.time() - t0, 1),
